@@ -22,7 +22,7 @@ PROP_FILE = "Props/P_C14.v"
 TRUSTED = vlib.TRUSTED_COMMON + [
     "tools/xlate futures (go/ast: capacity of Done, select/default around every send on .Done, RemoveMessageFuture in the timeout "
     "case of syncCallback, `callback != nil` guard of futures.Store/Delete in sendAsync, RemoveMessageFuture in the heartbeat processor)",
-    "Go harness remrun14 (fake getty.Session, real listener/client/processors; parked deliveries counted from runtime.Stack) and this driver's case printer",
+    "Go harness remrun14/remruntcp (fake getty.Session, real listener/client/processors; parked deliveries counted from runtime.Stack) and this driver's case printer",
 ]
 HEADER = """From Coq Require Import List NArith ZArith Bool.
 From SeataV Require Import Remoting.FuturesModel Remoting.FuturesCases.
@@ -115,8 +115,16 @@ def run(chk, only=None):
     for i in range(nb):
         jobs.append(("batch%d" % i, dict(mode="batch", seed=chk.seed * 1000 + i, nbatch=24 if quick else 80)))
 
+    jobs.append(("tcp", dict(seed=chk.seed, n=16 if quick else 64, m=24 if quick else 120)))
+    tcp = {}
+
     def one(j):
         name, kw = j
+        if name == "tcp":
+            # full-stack smoke over loopback TCP (own process: the client connects to a stand-in coordinator)
+            data, secs = vlib.run_harness("remruntcp", chk.tmp("tcp.json"), timeout=600, conf=conf, **kw)
+            tcp.update(data["tcp"])
+            return [], secs
         data, secs = vlib.run_harness("remrun14", chk.tmp(name + ".json"), timeout=1500, conf=conf, **kw)
         return data["cases"], secs
 
@@ -136,6 +144,10 @@ def run(chk, only=None):
         chk.violation("%s history: %s" % (c["mode"], c["oracle"][0]),
                       {"case": slim(c), "seed": chk.seed, "tier": chk.tier,
                        "model_disagreements": [ERR[e] for e in mism.get(i, [])]}, True)
+    if tcp.get("oracle"):
+        chk.violation("full stack over loopback TCP: %s" % tcp["oracle"][0], {"tcp": tcp, "seed": chk.seed, "tier": chk.tier}, True)
+    if tcp.get("skipped"):
+        chk.notes.append("tcp smoke scenario skipped (infrastructure): " + tcp["skipped"])
     corr_only = [i for i in mism if i not in oracle_fail]
     if corr_only and not chk.violations:
         i = sorted(corr_only, key=size)[0]
@@ -172,6 +184,7 @@ def run(chk, only=None):
         "max_concurrent_callers": max([c["callers"] for c in cases if c["mode"] == "conc"] or [0]),
         "traces_validated_against_impl": len(cases) - len(mism),
         "direct_oracle_failures": len(oracle_fail),
+        "tcp_smoke": {k: tcp.get(k) for k in ("skipped", "callers", "replies_sent", "p2_requests", "p2_responses", "heartbeats_seen", "secs")},
         "fresh_request_completed": sum(1 for c in cases if c["fresh_ok"]),
         "samples": [slim(c) for c in sorted(nt, key=lambda c: len(c["events"]))[len(nt) // 2:len(nt) // 2 + 1]],
     })
